@@ -34,6 +34,10 @@ Step(ev) ==
             ELSE Chk(ev.out = "out_of_range", "read_pixel outside the canvas must throw out_of_range")
          /\ UNCHANGED <<dst, src, msk>>
     [] ev.e = "fill" -> Expect(ev, FillRect(dst, ev.x, ev.y, ev.w, ev.h, ev.c), "fill_rect")
+    [] ev.e = "textbg" ->     \* text without glyph cells: exactly the 1 x 9 background column closing each of its lines
+         LET RECURSIVE Cols(_, _)
+             Cols(cv, k) == IF k = 0 THEN cv ELSE FillRect(Cols(cv, k - 1), ev.x - 1, ev.y - 1 + 8 * (k - 1), 1, 9, ev.c) IN
+         Expect(ev, Cols(dst, ev.lines), "draw_text of a text without glyphs (background columns)")
     [] ev.e = "blit" ->
          LET a == ev.a
              exp == CASE ev.op = "blit" -> BlitWith(dst, src, a[1], a[2], a[3], a[4], a[5], a[6], RBlit)
